@@ -96,6 +96,7 @@ def build(w, variant='apply'):
                              'and val(now) >= old(g.now)))',
                     'unvisited_jobs_untouched': Forall(K, 'implies(old(has(%s, k)) and not _seen[k], '
                                                           '%s._event.flag == old(%s._event.flag) and has(%s, k))' % (cache, jk, jk, cache)),
+                    'no_job_enters_the_cache': Forall(K, 'implies(has(%s, k), old(has(%s, k)))' % (cache, cache)),
                     'clock_read_before_the_first_job': Forall(K, 'implies(_seen[k], now is not None)'),
                     'resolved_stays_resolved': Forall(K, 'implies(old(has(%s, k)) and old(%s._event.flag), %s._event.flag)' % (cache, jk, jk)),
                     # every visited job whose grace period was over when the list was built is resolved
@@ -146,6 +147,7 @@ def build(w, variant='apply'):
                         'implies(_seen[k] and old(has(%s, k)) and entry(not get(self._cache, k)._event.flag) and old(%s._worker_pid) is not None and '
                         'old(%s._worker_pid) != 0 and all(implies(0 <= j and j < len(self._pool), at(self._pool, j).pid != old(%s._worker_pid)) for j in ints()), '
                         '%s._worker_lost is not None or %s._event.flag)' % (cache, jk, jk, jk, jk, jk)),
+                    'no_job_enters_the_cache': Forall(K, 'implies(has(%s, k), old(has(%s, k)))' % (cache, cache)),
                     # P4: the instant of detection and the exit status recorded with it are never overwritten (a later tick that
                     # reaps another worker must not re-arm the grace period of a job that is already marked)
                     'a_loss_record_is_never_replaced': Forall(K, 'implies(old(has(%s, k)) and old(%s._worker_lost) is not None, %s._worker_lost == old(%s._worker_lost))' % (cache, jk, jk, jk)),
@@ -168,6 +170,15 @@ def build(w, variant='apply'):
                 'at(self._pool, j).pid != old(%s._worker_pid)) for j in ints()))' % (cache, jk, jk, jk, jk, jk)),
             # ... so "no later than the timeout plus one supervision period after detection" holds across ticks
             'a_loss_record_is_never_replaced': Forall(K, 'implies(old(has(%s, k)) and old(%s._worker_lost) is not None, %s._worker_lost == old(%s._worker_lost))' % (cache, jk, jk, jk)),
+            # the loss is reported for every job whose worker is gone -- also when its ACK was handled after the worker had been
+            # reaped: in a tick that reaps some worker ...
+            'job_of_a_vanished_worker_is_marked_when_a_worker_was_reaped': Forall(K, 'implies(%s and has(%s, k) and not %s._event.flag and %s._worker_pid is not None and '
+                '%s._worker_pid != 0 and all(implies(0 <= j and j < len(self._pool), at(self._pool, j).pid != %s._worker_pid) for j in ints()), '
+                '%s._worker_lost is not None)' % ('len(result) > 0', cache, jk, jk, jk, jk, jk)),
+            # ... and in a tick that reaps nothing (D12: the matching loop does not run then)
+            'job_of_a_vanished_worker_is_marked_in_a_tick_that_reaps_nothing': Forall(K, 'implies(%s and has(%s, k) and not %s._event.flag and %s._worker_pid is not None and '
+                '%s._worker_pid != 0 and all(implies(0 <= j and j < len(self._pool), at(self._pool, j).pid != %s._worker_pid) for j in ints()), '
+                '%s._worker_lost is not None)' % ('len(result) == 0', cache, jk, jk, jk, jk, jk)),
             'only_live_workers_remain': Forall({'j': 'ints()'}, 'implies(0 <= j and j < len(self._pool), %s)' % alive),
             'one_status_per_reaped_worker': 'len(result) == old(len(self._pool)) - len(self._pool)',
         },
@@ -193,6 +204,9 @@ MANIFEST_ENTRY = {
             'owner of a delivered chunk (refuted on the pinned tree -- D3, a recycled worker failed the whole map -- replayed, fixed '
             'in /repo ab695da); mark_as_worker_lost on an unordered imap queues the loss record for the consumer (proved), on an '
             'ordered imap it does not (D4: KNOWN-FINDING with replay, not repaired: no small patch gives the iterator a position '
-            'to raise at).  D12 (ACK handled after the worker was reaped, threads=False) is not under contract.  Exit status '
+            'to raise at).  D12 (the ACK of a job is handled after its worker was reaped): the tick marks such a job when it reaps some worker '
+            '(proved: post.job_of_a_vanished_worker_is_marked_when_a_worker_was_reaped) but not in a tick that reaps nothing '
+            '(KNOWN-FINDING with replay; not repaired: running the matching loop in every tick changes how often the embedder '
+            'hooks on_job_process_down fire).  Exit status '
             'reporting by the OS and the length of a supervision period are assumed.',
 }
